@@ -219,4 +219,103 @@ func runProxy(t *testing.T, r *rep.R) {
 		}
 	}
 	_ = ctpolicy.BaseName
+	runProxyParked(t, r)
+}
+
+// hangLog answers submissions only while *open is true; otherwise a submission waits until its context ends.
+type hangLog struct {
+	pxLog
+	open *bool
+}
+
+func (l hangLog) AddChain(ctx context.Context, chain []ct.ASN1Cert) (*ct.SignedCertificateTimestamp, error) {
+	return l.wait(ctx)
+}
+func (l hangLog) AddPreChain(ctx context.Context, chain []ct.ASN1Cert) (*ct.SignedCertificateTimestamp, error) {
+	return l.wait(ctx)
+}
+func (l hangLog) wait(ctx context.Context) (*ct.SignedCertificateTimestamp, error) {
+	l.mu.Lock()
+	open := *l.open
+	l.mu.Unlock()
+	if !open {
+		<-ctx.Done()
+		return nil, ctx.Err()
+	}
+	return l.sub(ctx)
+}
+
+// runProxyParked: a submission is parked on logs that do not answer (its caller never cancels) while a log-list update
+// arrives; a second caller, whose logs answer at once, must be served - "it always terminates, for every pattern of log
+// latencies". The scenario runs in a bubble of its own; because a caller stuck on a lock keeps the bubble from ever
+// coming to rest, the bubble is watched from outside (4 minutes of real time for a scenario that takes milliseconds).
+func runProxyParked(t *testing.T, r *rep.R) {
+	for _, pol := range []submission.CTPolicyType{submission.AppleCTPolicy, submission.ChromeCTPolicy} {
+		pol := pol
+		name := fmt.Sprintf("policy=%d parked submission, log-list update, second caller", pol)
+		r.Eval(1)
+		r.Nontrivial("proxy-parked|" + name)
+		done := make(chan string, 1)
+		go func() {
+			res := ""
+			defer func() {
+				if p := recover(); p != nil && !strings.Contains(fmt.Sprint(p), "blocked goroutines remain") {
+					res = "panic: " + fmt.Sprint(p)
+				}
+				done <- res
+			}()
+			synctest.Test(t, func(t *testing.T) {
+				var mu sync.Mutex
+				roots := []ct.ASN1Cert{{Data: dRootR.DER}}
+				asked, subs := map[string]int{}, map[string]int{}
+				open := false
+				lcb := func(l *loglist3.Log) (client.AddLogClient, error) {
+					return hangLog{pxLog{url: l.URL, mu: &mu, roots: &roots, asked: &asked, subs: &subs}, &open}, nil
+				}
+				mk := func(version string) *submission.LogListData {
+					logs := []dLog{}
+					for i := 0; i < 4; i++ {
+						logs = append(logs, dLog{URL: fmt.Sprintf("https://px%d.example/", i), Google: i%2 == 0, Status: "usable", Interval: "none", Roots: "include", Answer: "sct"})
+					}
+					ll := dList(logs, time.Time{})
+					ll.Version = version
+					return &submission.LogListData{List: ll, JSON: []byte(`{"version":"` + version + `"}`)}
+				}
+				ref := &pxRefresher{lists: []*submission.LogListData{mk("v0"), mk("v1"), mk("v2")}}
+				ctx, cancel := context.WithCancel(context.Background())
+				defer cancel()
+				p := submission.NewProxy(submission.NewLogListManager(ref, nil), submission.GetDistributorBuilder(pol, lcb, nil), nil)
+				p.Run(ctx, 10*time.Minute, time.Hour)
+				<-p.Init
+				leafR := pki.NewLeaf("c17 parked leaf", pki.LoadKey("p256-2"), dRootR, pki.LeafOpts{NotAfter: time.Date(2024, 6, 1, 0, 0, 0, 0, time.UTC)})
+				time.Sleep(time.Minute)
+				first := make(chan error, 1)
+				go func() { // caller 1: no deadline, every log it tries is silent
+					_, err := p.AddChain(ctx, [][]byte{leafR.DER, dRootR.DER}, false)
+					first <- err
+				}()
+				time.Sleep(25 * time.Minute) // two log-list updates have been delivered meanwhile
+				mu.Lock()
+				open = true
+				mu.Unlock()
+				c2, cancel2 := context.WithTimeout(ctx, time.Minute)
+				defer cancel2()
+				if _, err := p.AddChain(c2, [][]byte{leafR.DER, dRootR.DER}, false); err != nil {
+					res = fmt.Sprintf("the second caller's logs answer at once, yet its submission fails: %v", err)
+				}
+				cancel()
+				<-first
+				synctest.Wait()
+			})
+		}()
+		select {
+		case res := <-done:
+			if res != "" {
+				r.Violation("proxy: a caller is not served while another caller's submission is parked on silent logs", name+": "+res, map[string]any{"policy": fmt.Sprint(pol)})
+			}
+		case <-time.After(4 * time.Minute):
+			r.Violation("proxy: a caller never returns while another caller's submission is parked on silent logs", name+": the scenario (milliseconds of work under virtual time) did not finish in 4 minutes of real time: a caller waits for a lock that the parked submission holds", map[string]any{"policy": fmt.Sprint(pol)})
+			return
+		}
+	}
 }
